@@ -539,4 +539,183 @@ theorem verifyMain_honest {C : Crypto} {versions : Nat → Option Params} {cp : 
   simp only at hv
   simp [hv, hcert]
 
+
+/-! ### the secp256k1 branch (EnableBls = false; no shipped version uses it) -/
+
+structure InvS (C : Crypto) (cd : CD) (lb : LookBack) (step : Nat) (all : List Vote) (st : VState) (S : List (Val × Vote)) : Prop where
+  sta : st.sta = S.map (·.1.addr)
+  count : st.count = weight S % U32
+  ballots : ValidBallotsSecp C lb cd.seed step cd.payload cd.t all S
+
+theorem stepSecp_inv {C : Crypto} {cd : CD} {lb : LookBack} {step : Nat} {all : List Vote}
+    {st st' : VState} {S : List (Val × Vote)} {v : Vote}
+    (hinv : InvS C cd lb step all st S) (hv : v ∈ all)
+    (h : stepSecp Checks.current C cd lb.sorted lb.chamberStake step st v = .cont st') :
+    ∃ S', InvS C cd lb step all st' S' := by
+  unfold stepSecp at h
+  split at h
+  · cases h; exact ⟨S, hinv⟩
+  · rename_i k pl hsig
+    split at h
+    · split at h
+      · cases h; exact ⟨S, hinv⟩
+      · cases h
+    · rename_i val hfind
+      split at hfind
+      · rename_i hpl
+        have hmem : val ∈ lb.vals := mem_sortDesc.1 (List.mem_of_find?_eq_some hfind)
+        have hmk : val.mainKey = some k := by simpa using List.find?_some hfind
+        split at h
+        · cases h; exact ⟨S, hinv⟩
+        · rename_i hent
+          split at h
+          · cases h; exact ⟨S, hinv⟩
+          · rename_i hdup
+            unfold count1 at h
+            split at h
+            · cases h
+            · cases h; exact ⟨S, hinv⟩
+            · rename_i hs
+              cases h
+              obtain ⟨hh, j, hp, hj, hpos, hu⟩ := sortitionOK_true hs
+              have hent' : Entitled val := entitled_iff.1 (by simp [Checks.current] at hent; exact hent)
+              have hnot : val.addr ∉ S.map (·.1.addr) := by rw [← hinv.sta]; simpa using hdup
+              refine ⟨(val, v) :: S, ⟨by simp [hinv.sta], ?_, ⟨?_, ?_, ?_, ?_, ?_⟩⟩⟩
+              · show (st.count + v.votes) % U32 = weight ((val, v) :: S) % U32
+                rw [weight_cons, hinv.count, Nat.mod_add_mod, Nat.add_comm]
+              · simp only [List.map_cons, List.nodup_cons]; exact ⟨hnot, hinv.ballots.distinct⟩
+              · intro p hp'
+                rcases List.mem_cons.1 hp' with rfl | hp''
+                · exact ⟨hmem, hv⟩
+                · exact hinv.ballots.member p hp''
+              · intro p hp'
+                rcases List.mem_cons.1 hp' with rfl | hp''
+                · exact hent'
+                · exact hinv.ballots.entitled p hp''
+              · intro p hp'
+                rcases List.mem_cons.1 hp' with rfl | hp''
+                · exact ⟨k, hh, j, hmk, hp, hj, hpos, hu⟩
+                · exact hinv.ballots.cred p hp''
+              · intro p hp'
+                rcases List.mem_cons.1 hp' with rfl | hp''
+                · exact ⟨k, hmk, by rw [hsig, hpl]⟩
+                · exact hinv.ballots.signed p hp''
+      · cases hfind
+
+theorem loopS_inv {C : Crypto} {cd : CD} {lb : LookBack} {step : Nat} {all : List Vote} :
+    ∀ (vs : List Vote) (st st' : VState) (S : List (Val × Vote)),
+      InvS C cd lb step all st S → (∀ v ∈ vs, v ∈ all) →
+      loop (stepSecp Checks.current C cd lb.sorted lb.chamberStake step) vs st = .cont st' →
+      ∃ S', InvS C cd lb step all st' S' := by
+  intro vs
+  induction vs with
+  | nil => intro st st' S hinv _ h; simp [loop] at h; cases h; exact ⟨S, hinv⟩
+  | cons v vs ih =>
+    intro st st' S hinv hall h
+    simp only [loop] at h
+    split at h
+    · rename_i st1 hst1
+      obtain ⟨S1, hinv1⟩ := stepSecp_inv hinv (hall v List.mem_cons_self) hst1
+      exact ih st1 st' S1 hinv1 (fun w hw => hall w (List.mem_cons_of_mem _ hw)) h
+    · cases h
+
+theorem loop_stop_ne_ok (f : VState → Vote → Step) (hf : ∀ st v, f st v ≠ .stop .ok) :
+    ∀ (vs : List Vote) (st : VState), loop f vs st ≠ .stop .ok := by
+  intro vs
+  induction vs with
+  | nil => intro st; simp [loop]
+  | cons v vs ih =>
+    intro st
+    simp only [loop]
+    split
+    · exact ih _
+    · rename_i r hr; intro hc; cases hc; exact hf _ _ hr
+
+theorem stepSecp_ne_ok (ck : Checks) (C : Crypto) (cd : CD) (vs : List Val) (total step : Nat) (st : VState) (v : Vote) :
+    stepSecp ck C cd vs total step st v ≠ .stop .ok := by
+  unfold stepSecp
+  split
+  · simp
+  · split
+    · split <;> simp
+    · split
+      · simp
+      · split
+        · simp
+        · unfold count1; split <;> simp
+
+/-- `verifyVotes`, secp256k1 branch, current checks: acceptance ⇒ a valid ballot set with a quorum of seats -/
+theorem verifyVotes_sound_secp {C : Crypto} {cd : CD} {lb : LookBack} {votes : List Vote} {agg : Option (List SigAtom)}
+    {step : Nat} {isPos : Bool} (hb : cd.enableBls = false)
+    (h : verifyVotes Checks.current C cd lb votes agg step isPos = .ok) :
+    ∃ S, ValidBallotsSecp C lb cd.seed step cd.payload cd.t votes S ∧ quorum isPos cd.t ≤ weight S := by
+  unfold verifyVotes at h
+  simp only [hb, Bool.false_and, Bool.false_eq_true, if_false] at h
+  split at h
+  · rename_i r hr
+    subst h
+    exact absurd hr (loop_stop_ne_ok _ (stepSecp_ne_ok _ _ _ _ _ _) _ _)
+  · rename_i st hst
+    have h0 : InvS C cd lb step votes ⟨[], [], 0⟩ [] :=
+      ⟨rfl, by simp [weight], ⟨by simp, by simp, by simp, by simp, by simp⟩⟩
+    obtain ⟨S, hinv⟩ := loopS_inv votes _ st [] h0 (fun v hv => hv) hst
+    split at h
+    · cases h
+    · rename_i hover
+      have hq : quorum isPos cd.t ≤ st.count := quorum_le_of_over (by simpa using hover)
+      refine ⟨S, hinv.ballots, ?_⟩
+      rw [hinv.count] at hq
+      exact Nat.le_trans hq (Nat.mod_le _ _)
+
+
+/-- certificate rounds: acceptance implies that the certificate votes passed `verifyVotes` under the seed and the
+committee size recorded on the certificate look-back header, the certificate step and the 0.585 fraction
+(NB: with header.Validator's round index) -/
+theorem verifyMain_cert {C : Crypto} {versions : Nat → Option Params} {cp : Params} {seedHdr : LbHeader}
+    {lb : LookBack} {certHdr : Option LbHeader} {certLb : LookBack} {h : Header}
+    (hok : verifyMain Checks.current C versions cp seedHdr lb certHdr certLb h = .ok)
+    (hcert : isCertRound h.number = true) :
+    ∃ ch cseed ct yp cu c uc, certHdr = some ch ∧ ch.cons = some (cseed, ct) ∧ versions ch.version = some yp ∧
+      h.cert = some cu ∧ h.cons = some c ∧ h.uc = some uc ∧
+      verifyVotes Checks.current C
+        { enableBls := yp.enableBls, seed := cseed, payload := ⟨h.hash, c.round, uc.roundIndex⟩, t := ct }
+        certLb cu.votes cu.agg Gen.stepCertificate false = .ok := by
+  unfold verifyMain at hok
+  split at hok
+  · cases hok
+  · split at hok
+    · cases hok
+    · rename_i c hc
+      split at hok
+      · cases hok
+      · split at hok
+        · cases hok
+        · split at hok
+          · split at hok
+            · cases hok
+            · split at hok
+              · cases hok
+              · cases hok
+              · split at hok
+                · cases hok
+                · rename_i uc huc
+                  dsimp only at hok
+                  split at hok
+                  · split at hok
+                    · cases hok
+                    · rename_i ch hch
+                      split at hok
+                      · cases hok
+                      · rename_i cseed ct hcc
+                        split at hok
+                        · cases hok
+                        · rename_i yp hyp
+                          split at hok
+                          · cases hok
+                          · rename_i cu hcu
+                            exact ⟨hch, cseed, ct, yp, cu, c, uc, rfl, hcc, hyp, hcu, hc, huc, hok⟩
+                  · rename_i hr
+                    exact absurd hok hr
+          · cases hok
+
 end YouVerif.C01
